@@ -24,6 +24,8 @@ def define_case(batch: CoqBatch, i: int, N: Names, g, run):
     sel = run.get("select")
     if sel is None and g.get("selected") is not None:
         sel = g["selected"]
+    if sel == "**":
+        sel = None
     batch.add_def(i, "sel", c_opt(sel, lambda s: c_list([c_pos(N(x)) for x in s])), "option (list name)")
     fuel = run.get("max_iterations") or 1000
     batch.add_def(i, "fuel", c_nat(fuel))
@@ -43,7 +45,7 @@ def emit_model_checks(batch: CoqBatch, i: int, N: Names, g, run, obs, log_mode="
         batch.add(i, 104, "calls_multiset_eqb", "concat (res_log $res)", pdl.c_log(N, obs["log"]))
 
 
-def run_cases(ctx, name, cases, extra=None, shard=160, schedules=None):
+def run_cases(ctx, name, cases, extra=None, shard=160, schedules=None, want_model=None):
     """cases: list of (g, run_cfg).  For each: run on the implementation, emit MODEL checks, then
     call extra(i, g, run_cfg, obs, batch, N) -> list of oracle failure strings (Python-level oracle);
     `extra` may also add SPEC checks (codes < 100) to the batch.  Returns (obs_all, coq result)."""
@@ -67,13 +69,20 @@ def run_cases(ctx, name, cases, extra=None, shard=160, schedules=None):
             ctx.violation("harness", f"real-side driver crashed: {type(e).__name__}: {e}", case={"graph": g, "run": run_cfg}, trace=traceback.format_exc()[-1500:])
             continue
         obs_all[i] = obs
+        if obs["status"] == "raised" and run_cfg.get("allow_raise"):
+            define_case(batch, i, N, g, run_cfg)
+            if extra is not None:
+                for msg in extra(i, g, run_cfg, obs, batch, N) or []:
+                    ctx.violation("oracle", msg, case={"graph": g, "run": run_cfg}, observed=obs)
+            continue
         if obs["status"] == "raised":
             if run_cfg.get("expect_raise"):
                 continue
             ctx.violation("oracle", f"run raised instead of returning a result: {obs['error_repr']}", case={"graph": g, "run": run_cfg})
             continue
         define_case(batch, i, N, g, run_cfg)
-        emit_model_checks(batch, i, N, g, run_cfg, obs, log_mode="exact" if run_cfg.get("runner", "sync") == "sync" else "multiset")
+        if want_model is None or want_model(g, run_cfg, obs):
+            emit_model_checks(batch, i, N, g, run_cfg, obs, log_mode="exact" if run_cfg.get("runner", "sync") == "sync" else "multiset")
         if extra is not None:
             for msg in extra(i, g, run_cfg, obs, batch, N) or []:
                 ctx.violation("oracle", msg, case={"graph": g, "run": run_cfg}, observed=obs)
